@@ -92,7 +92,7 @@ func flattenString(t *ir.Term) []string {
 }
 
 func c17(c *Ctx) {
-	c.R.Explanation = "C17 decided on the SSA of /repo. R-paths = the values stored into HwMonFanConfig.{RpmInputPath,PwmPath,PwmEnablePath} normalise (through path.Join / fmt.Sprintf / Itoa / +) to SysfsPath/fan<RpmChannel>_input, SysfsPath/pwm<PwmChannel>, SysfsPath/pwm<PwmChannel>_enable of the same config object, and every I/O call of every HwMonFan method uses exactly the designated path field (GetRpm: RpmInputPath; GetPwm/SetPwm: PwmPath; Get/SetPwmEnabled: PwmEnablePath). R-match = in the fan binding function a candidate device is accepted (its sysfs path copied into the entry) only on paths that crossed: platform regexp matched, (entry.Index <= 0 or candidate.Index == entry.Index) and (entry.RpmChannel <= 0 or candidate.RpmChannel == entry.RpmChannel); the copied values come from that candidate. R-default = the entry's PwmChannel is overwritten only under PwmChannel == 0 and with the candidate's channel; the paths are (re)computed after the acceptance on every path to the nil return. R-fail = every return that avoids the acceptance carries a non-nil error. R-bind-sensor = in start-up sensor binding, a hwmon sensor object is created only on paths (tracked through the boolean 'found' flag) on which TempInput was stored, that store being dominated by platform-matched and by the comma-ok of the index lookup; otherwise an error is returned. R-position = the discovery function keys the per-chip sensor map, and fills HwmonSensor.Index, with a counter incremented once per accepted temperature input (position), not with a number taken from the device name. R-nocrash = no map-lookup dereference with ignored ok, non-comma-ok type assertion or panic in the binding code. R-holes = a list of pointers created with make([]*T, n), n != 0, in the discovery/binding packages stores its slot in every iteration of the filling loop (the binders dereference every element without a nil test). R-alias = no append in the discovery / instantiation packages targets a re-slice of a parameter list (in-place filtering rearranges the caller's device list). R-match follows the acceptance and the comparisons into helpers of the binding function (parameters resolved to the caller's arguments; a boolean predicate helper establishes a clause when it can return true only across an edge or with a result that establishes it; short-circuit values kept in locals are followed path-sensitively). Not decided: regexp semantics; enumeration-order independence beyond 'first match among chips matching the pattern'."
+	c.R.Explanation = "C17 decided on the SSA of /repo. R-paths = the values stored into HwMonFanConfig.{RpmInputPath,PwmPath,PwmEnablePath} normalise (through path.Join / fmt.Sprintf / Itoa / +) to SysfsPath/fan<RpmChannel>_input, SysfsPath/pwm<PwmChannel>, SysfsPath/pwm<PwmChannel>_enable of the same config object, and every I/O call of every HwMonFan method uses exactly the designated path field (GetRpm: RpmInputPath; GetPwm/SetPwm: PwmPath; Get/SetPwmEnabled: PwmEnablePath). R-match = in the fan binding function a candidate device is accepted (its sysfs path copied into the entry) only on paths that crossed: platform regexp matched, (entry.Index <= 0 or candidate.Index == entry.Index) and (entry.RpmChannel <= 0 or candidate.RpmChannel == entry.RpmChannel); the copied values come from that candidate. R-default = the entry's PwmChannel is overwritten only under PwmChannel == 0 and with the candidate's channel; the paths are (re)computed after the acceptance on every path to the nil return. R-fail = every return that avoids the acceptance carries a non-nil error. R-bind-sensor = in start-up sensor binding, a hwmon sensor object is created only on paths (tracked through the boolean 'found' flag) on which TempInput was stored, that store being dominated by platform-matched and by the comma-ok of the index lookup; otherwise an error is returned. R-position = the discovery function keys the per-chip sensor map, and fills HwmonSensor.Index, with a counter incremented once per accepted temperature input (position), not with a number taken from the device name. R-nocrash = no map-lookup dereference with ignored ok, non-comma-ok type assertion or panic in the binding code. R-holes = a list of pointers created with make([]*T, n), n != 0, in the discovery/binding packages stores its slot in every iteration of the filling loop (the binders dereference every element without a nil test). R-alias = no append in the discovery / instantiation packages targets a re-slice of a parameter list (in-place filtering rearranges the caller's device list). R-match follows the acceptance and the comparisons into helpers of the binding function (parameters resolved to the caller's arguments; a boolean predicate helper establishes a clause when it can return true only across an edge or with a result that establishes it; short-circuit values kept in locals are followed path-sensitively). R-paths|complete = every device-path field of HwMonFanConfig (string field named *Path other than SysfsPath) is stored by the function that recomputes the three known paths from SysfsPath and the channels. Not decided: regexp semantics; enumeration-order independence beyond 'first match among chips matching the pattern'."
 	tb := ir.NewTB(c.P.IsRepoFunc, c.P.FuncKey)
 
 	// ---- R-paths: construction ------------------------------------------------------
@@ -157,34 +157,83 @@ func c17(c *Ctx) {
 				continue
 			}
 			n := 0
-			Calls(fn, func(cc ssa.CallInstruction) {
-				call, ok := cc.(*ssa.Call)
-				if !ok {
-					return
-				}
-				name := ir.CallName(call)
-				argi := -1
+			// the file accesses of the method, including those made by helpers of the fans package it calls with
+			// the path as an argument (writePwm(path, pwm)): each as (I/O call, term of the path in the method)
+			type access struct {
+				name string
+				pos  token.Pos
+				term string
+			}
+			ioArg := func(name string) int {
 				switch name {
 				case PkgUtil + ".ReadIntFromFile", "os.ReadFile", "os.Stat":
-					argi = 0
+					return 0
 				case PkgUtil + ".WriteIntToFile", PkgUtil + ".WriteIntToFileAtomic":
-					argi = 1
+					return 1
 				case "os.WriteFile":
-					argi = 0
+					return 0
 				}
-				if argi < 0 {
-					return
-				}
+				return -1
+			}
+			var collect func(f *ssa.Function, depth int) (direct []access, viaParam map[int][]access)
+			collect = func(f *ssa.Function, depth int) ([]access, map[int][]access) {
+				var direct []access
+				viaParam := map[int][]access{}
+				Calls(f, func(cc ssa.CallInstruction) {
+					call, ok := cc.(*ssa.Call)
+					if !ok {
+						return
+					}
+					name := ir.CallName(call)
+					if argi := ioArg(name); argi >= 0 && argi < len(call.Call.Args) {
+						a := ir.Resolve(call.Call.Args[argi])
+						if prm, isParam := a.(*ssa.Parameter); isParam && f != fn {
+							for k, q := range f.Params {
+								if q == prm {
+									viaParam[k] = append(viaParam[k], access{name, call.Pos(), ""})
+								}
+							}
+							return
+						}
+						direct = append(direct, access{name, call.Pos(), tb.Of(call.Call.Args[argi], nil).String()})
+						return
+					}
+					if h := ir.Callee(call).Static; h != nil && depth < 2 && load_FuncPkgPath(h) == PkgFans && h != f && len(h.Blocks) > 0 {
+						hd, hp := collect(h, depth+1)
+						direct = append(direct, hd...)
+						for k, as := range hp {
+							if k >= len(call.Call.Args) {
+								continue
+							}
+							a := ir.Resolve(call.Call.Args[k])
+							if prm, isParam := a.(*ssa.Parameter); isParam && f != fn {
+								for k2, q := range f.Params {
+									if q == prm {
+										viaParam[k2] = append(viaParam[k2], as...)
+									}
+								}
+								continue
+							}
+							t := tb.Of(call.Call.Args[k], nil).String()
+							for _, x := range as {
+								direct = append(direct, access{x.name, call.Pos(), t})
+							}
+						}
+					}
+				})
+				return direct, viaParam
+			}
+			accs, _ := collect(fn, 0)
+			for _, a := range accs {
 				n++
-				t := tb.Of(call.Call.Args[argi], nil)
 				wantT := "field:" + field + "(field:HwMon(field:Config(recv:HwMonFan)))"
-				key := c.FK(fn) + "|" + name
-				if t.String() == wantT {
-					c.R.Ok("R-paths-use", key, c.FK(fn), c.P.Pos(call.Pos()), m+" uses Config.HwMon."+field)
+				key := c.FK(fn) + "|" + a.name
+				if a.term == wantT {
+					c.R.Ok("R-paths-use", key, c.FK(fn), c.P.Pos(a.pos), m+" uses Config.HwMon."+field)
 				} else {
-					c.R.Bad("R-paths-use", key, c.FK(fn), c.P.Pos(call.Pos()), m+" accesses "+t.String()+" instead of Config.HwMon."+field)
+					c.R.Bad("R-paths-use", key, c.FK(fn), c.P.Pos(a.pos), m+" accesses "+a.term+" instead of Config.HwMon."+field)
 				}
-			})
+			}
 			if n == 0 {
 				// delegation to another method of the same type is fine (e.g. IsPwmAuto -> GetPwmEnabled)
 				c.R.Undecided("R-paths-use", c.FK(fn), c.FK(fn), c.P.Pos(fn.Pos()), "no file access found in this I/O method (anchor unresolved)")
@@ -193,6 +242,59 @@ func c17(c *Ctx) {
 	}
 	c.R.Require("R-paths", 3)
 	c.R.Require("R-paths-use", 5)
+	// R-paths|complete: every device path kept in the entry (a string field of HwMonFanConfig named *Path other
+	// than the chip's SysfsPath) is recomputed by the function that derives the paths from SysfsPath and the
+	// channels (the one that stores the three known paths). A path that is only copied from the discovery
+	// record belongs to the discovered channel, not to the pwm channel the entry names.
+	if cfgT := c.Named(PkgConf, "HwMonFanConfig"); cfgT != nil {
+		if st, ok := cfgT.Underlying().(*types.Struct); ok {
+			var recompute *ssa.Function
+			for _, fn := range c.P.Funcs {
+				found := map[string]bool{}
+				Instrs(fn, func(ins ssa.Instruction) {
+					if s2, ok := ins.(*ssa.Store); ok {
+						if fa, ok := s2.Addr.(*ssa.FieldAddr); ok {
+							if o, n, _ := ir.FieldName(fa); o != nil && o.Obj().Name() == "HwMonFanConfig" && want[n] != nil {
+								if _, lit := fa.X.(*ssa.Alloc); !lit {
+									found[n] = true
+								}
+							}
+						}
+					}
+				})
+				if len(found) >= 3 && (recompute == nil || c.FK(fn) < c.FK(recompute)) {
+					recompute = fn
+				}
+			}
+			for i := 0; i < st.NumFields(); i++ {
+				f := st.Field(i)
+				b, isStr := f.Type().Underlying().(*types.Basic)
+				if !isStr || b.Kind() != types.String || !strings.HasSuffix(f.Name(), "Path") || f.Name() == "SysfsPath" {
+					continue
+				}
+				key := "HwMonFanConfig." + f.Name()
+				if recompute == nil {
+					c.R.Undecided("R-paths", key+"|complete", key, "-", "no function recomputes the entry's device paths (anchor unresolved)")
+					continue
+				}
+				stored := false
+				Instrs(recompute, func(ins ssa.Instruction) {
+					if s2, ok := ins.(*ssa.Store); ok {
+						if fa, ok := s2.Addr.(*ssa.FieldAddr); ok {
+							if o, n, _ := ir.FieldName(fa); o != nil && o.Obj().Name() == "HwMonFanConfig" && n == f.Name() {
+								stored = true
+							}
+						}
+					}
+				})
+				if stored {
+					c.R.Ok("R-paths", key+"|complete", key, c.P.Pos(recompute.Pos()), "recomputed by "+c.FK(recompute)+" together with the other device paths")
+				} else {
+					c.R.Bad("R-paths", key+"|complete", key, c.P.Pos(recompute.Pos()), "the entry keeps a device path "+f.Name()+" that "+c.FK(recompute)+" does not recompute from SysfsPath and the entry's channels: it stays whatever the discovery record held (the discovered channel), so with an explicit pwmChannel it names a different header")
+				}
+			}
+		}
+	}
 
 	// ---- fan binding --------------------------------------------------------------------
 	if fn := c.Func(PkgHwmon, "UpdateFanConfigFromHwMonControllers"); fn != nil {
